@@ -53,6 +53,7 @@ def run(ctx):
     ctx.rule("R3.no-access-after-handover", "after the last state write on a hand-over path nothing dereferences the event", floor=4)
     ctx.rule("R4.release-discipline", "release_event: callers limited to the endpoint functions, at most once per path, guarded by the transition result; receiver takes the reference first", floor=6)
     ctx.rule("R5.storage-strategies", "each EventRef::release_event impl reaches exactly one deallocation primitive matching its allocation", floor=3)
+    ctx.rule("R7.grant-only-on-terminal", "a release-granting return is reached only under an observed TERMINAL state (set/disconnected); an observed `signaling` must first pass the spin that waits for the sender to leave the event", floor=8)
     ctx.rule("R6.sibling-agreement", "the two sender transitions agree on the ordering discipline of each previous-state arm (cross-check)", floor=3)
 
     bodies = event_bodies(prog)
@@ -87,6 +88,25 @@ def run(ctx):
             elif kind == "unknown":
                 ctx.ob("R1.acquire-before-release", f"{b.name}|unclassified:{'/'.join(path)}", False, where,
                        f"return value shape {path} is not in the rule table for {b.name}")
+    from .c05 import state_guard_values
+    for name, (b, f) in sorted(flows.items()):
+        dom = b.dominators(unwind=False)
+        spin = [bb for bb, t in calls_to(b, "sync::Event::poll_signaling")]
+        for bb, path, s in return_sites(b):
+            if classify(name, path) != "grant":
+                continue
+            vals = state_guard_values(b, bb)
+            if vals is None:
+                # e.g. poll_signaling's own returns are guarded through its loop variable; handled by state_guard_values
+                ctx.ob("R7.grant-only-on-terminal", f"{name}|{'/'.join(path[:2])}|unguarded", False, b.loc(s.get("span")),
+                       f"release-granting return {path[:2]} is not control-dependent on an observation of the state byte")
+                continue
+            terminal = vals <= {1, 4}
+            via_spin = any(x in dom[bb] for x in spin)
+            ok = terminal or (vals <= {1, 3, 4} and via_spin and 3 in vals and len(vals) == 1)
+            ctx.ob("R7.grant-only-on-terminal", f"{name}|{'/'.join(path[:2])}|obs:{sorted(vals)}", ok, b.loc(s.get("span")),
+                   f"release-granting return {path[:2]} under observed state {sorted(vals)}; passes the signaling spin first: {via_spin}"
+                   + ("" if ok else ": the sender may still be inside the event (it has yet to store the terminal state) when the storage is released"))
     for need in ("set", "sender_dropped_without_set", "poll", "final_poll"):
         if need not in flows:
             ctx.missing("R1.acquire-before-release", f"Event::{need}")
